@@ -74,7 +74,7 @@ func verifDocSchema(part int) *schema.Schema {
 			idx := schema.NewIndex("i0").SetUnique(all == 3 || verifBool("unique"))
 			idx.AddParts(&schema.IndexPart{C: d, Desc: all == 3 || verifBool("desc")})
 			if all != 3 && verifBool("exprpart") {
-				idx.AddParts(&schema.IndexPart{SeqNo: 1, X: &schema.RawExpr{X: "(n + 1)"}})
+				idx.AddParts(&schema.IndexPart{SeqNo: 1, X: &schema.RawExpr{X: "(n + 1)"}, Desc: verifBool("exprdesc")})
 			}
 			if all == 3 || verifBool("where") {
 				idx.AddAttrs(&IndexPredicate{P: "(n > 0)"})
